@@ -11,6 +11,9 @@ open RedunModel RedunModel.Handles
    reply: `(rows (i<h> s<name> T|F)*) (edges (i<p> i<c>)*)` — the raw tables after the step
      (wf s<name> s<task>*)                         one execution of the chain tₙ(…t₁(Handle(name)))
    reply: `(ran s<task>*) (final T|F) (ext s<task>*) (rows n valid) (edges n)`
+     (wfk s<name> i<cd> s<task>*)                  the same execution, killed right after its task number cd (0-based)
+                                                   started writing (nothing happens if that task is served from the cache)
+   reply: `(ext s<task>*) (rows n valid) (edges n)`  — what the next process finds
    errors: `!fuel`, `bad-op`, `bad-value`. -/
 
 structure DSt where
@@ -92,6 +95,16 @@ def step (d : DSt) (line : String) : DSt × String :=
           atomOfInt (Int.ofNat (w'.st.rows.filter (·.valid)).length) ++ ") (edges " ++ atomOfInt (Int.ofNat w'.st.edges.length) ++ ")")
       | .error .fuel => (d, "!fuel")
     | _, _ => (d, "bad-value")
+  | some [.list (.atom "wfk" :: .atom n :: .atom cd :: ts)] =>
+    match strOfAtom n, natOfAtom cd, strsOf ts with
+    | some name, some c, some tasks =>
+      match runChainCrash d.fixed true "1" d.wf 0 tasks (.init name) c with
+      | .ok w' =>
+        ({ d with wf := w' },
+          "(ext " ++ " ".intercalate (w'.ext.map atomOfStr) ++ ") (rows " ++ atomOfInt (Int.ofNat w'.st.rows.length) ++ " " ++
+          atomOfInt (Int.ofNat (w'.st.rows.filter (·.valid)).length) ++ ") (edges " ++ atomOfInt (Int.ofNat w'.st.edges.length) ++ ")")
+      | .error .fuel => (d, "!fuel")
+    | _, _, _ => (d, "bad-value")
   | _ => (d, "bad-op")
 
 def main : IO Unit := do driverLoop (← IO.getStdin) {} step
